@@ -330,7 +330,7 @@ func (e *BinaryOpExpr) execStringIn(kv KVPair, ctx *ExecuteCtx) (any, error) {
 			}
 		}
 		return false, nil
-	case *FunctionCallExpr:
+	case *FunctionCallExpr, *FieldReferenceExpr:
 		if rlist.ReturnType() != TLIST {
 			return false, NewExecuteError(rlist.GetPos(), "in operator right expression has wrong type, not list 1")
 		}
@@ -338,7 +338,7 @@ func (e *BinaryOpExpr) execStringIn(kv KVPair, ctx *ExecuteCtx) (any, error) {
 		if err != nil {
 			return false, err
 		}
-		vals, ok := fret.([]any)
+		vals, ok := unpackArray(fret)
 		if !ok {
 			return false, NewExecuteError(rlist.GetPos(), "in operator right expression has wrong type, not list 2")
 		}
@@ -380,7 +380,7 @@ func (e *BinaryOpExpr) execNumberIn(kv KVPair, ctx *ExecuteCtx) (any, error) {
 			}
 		}
 		return false, nil
-	case *FunctionCallExpr:
+	case *FunctionCallExpr, *FieldReferenceExpr:
 		if rlist.ReturnType() != TLIST {
 			return false, NewExecuteError(rlist.GetPos(), "in operator right expression has wrong type, not list")
 		}
@@ -388,7 +388,7 @@ func (e *BinaryOpExpr) execNumberIn(kv KVPair, ctx *ExecuteCtx) (any, error) {
 		if err != nil {
 			return false, err
 		}
-		vals, ok := fret.([]any)
+		vals, ok := unpackArray(fret)
 		if !ok {
 			return false, NewExecuteError(rlist.GetPos(), "in operator right expression has wrong type, not list")
 		}
